@@ -25,7 +25,8 @@ def check(F, rep):
         ty = str(f.locals[l])
         if ty == RLT:
             var.setdefault("best_recent", l)
-        elif re.match(r"^core::option::Option<.*RelayUrl>$", ty) and any(call_matches(t, r"Clone::clone_from$") and arg_ref_target(f, t["args"][0]) == l for b, t in f.calls()):
+        elif re.match(r"^core::option::Option<.*RelayUrl>$", ty) and (any(call_matches(t, r"Clone::clone_from$") and arg_ref_target(f, t["args"][0]) == l for b, t in f.calls())
+                                                                      or any(fld == "preferred_relay" for _, fld in defuse(f).field_reads(l))):
             var.setdefault("prev_relay", l)
         elif ty == "core::time::Duration":
             ws = [s_["rv"] for b_, i_, s_ in f.stmts() if s_["k"] == "a" and s_["lhs"] == {"l": l} and s_["rv"]["k"] == "use" and s_["rv"]["o"]["k"] in ("copy", "move")]
@@ -160,6 +161,14 @@ def check(F, rep):
         x = copy_sources(f, op_base(t["args"][1]))
         okp = bool(x) and all(y[2][-1:] == ("preferred_relay",) for y in x)
     others = [s for b, i, s in f.stmts() if s["k"] == "a" and s["lhs"] == {"l": prev} and not (s["rv"]["k"] == "agg" and s["rv"].get("variant") == "None")]
+    if not pw:
+        # immutable binding computed from `self.reports.last`: every non-None definition is a
+        # clone / copy of last.preferred_relay
+        defs = [s for b, i, s in f.stmts() if s["k"] == "a" and s["lhs"] == {"l": prev}] + [t for b, t in f.calls() if t["dest"] == {"l": prev}]
+        srcs = copy_sources(f, prev, transparent=("core::clone::Clone::clone",))
+        okp = bool(srcs) and all((y[0] == "agg" and y[1].endswith("Option::None")) or (len(y) == 3 and tuple(y[2])[-1:] == ("preferred_relay",) and "last" in tuple(y[2])) for y in srcs) and any(len(y) == 3 and tuple(y[2])[-1:] == ("preferred_relay",) for y in srcs)
+        pw = [None]
+        others = []
     rep.ob("membership", okp and len(pw) == 1 and not others, site(f), "prev_relay is None or the last report's preferred_relay", skey(F, f, "prev-from-last"))
 
     # ---- the report that is recorded (reports.last / reports.prev) is the final one
